@@ -111,6 +111,8 @@ func (e *Env) call(x *ECall) Val {
 		key := "E|" + typeKey(st.Elem())
 		g.ensureKey(key, g.sortOf(st.Elem()))
 		return Val{S: app("select", e.heapGet(key), app("s_arr", v.S)), Sort: fmt.Sprintf("(Array %s %s)", g.idxSort(), g.sortOf(st.Elem())), ElemGT: st.Elem()}
+	case "each":
+		return e.eachAppended(x.Args[0])
 	case "waited":
 		v := arg(0)
 		g.ensureKey("G|waited", "Bool")
@@ -693,4 +695,63 @@ func (g *Gen) pureAxiom(fn *ssa.Function, fc *FuncContract) {
 	cs = append(cs, g.typeInv(r, ""))
 	g.decl(fmt.Sprintf("(assert (forall (%s) (! %s :pattern (%s))))", strings.Join(decl, " "), and(cs...), r.S))
 	g.Assumptions["trusted contract (assumed, body not verified): "+name+": "+clauseTexts(fc)] = true
+}
+
+// eachAppended expands each(P) over the elements appended at the current append site.
+func (e *Env) eachAppended(body Expr) Val {
+	g := e.g
+	if e.appendArg == nil {
+		e.fail("each(...) is only available in `site ...: append` clauses")
+	}
+	f := e.appendFrame
+	dest := e.bind["dest"]
+	st := dest.GT.Underlying().(*types.Slice)
+	key := "E|" + typeKey(st.Elem())
+	g.ensureKey(key, g.sortOf(st.Elem()))
+	lastOfDest := Val{S: app("select", app("select", e.heapGet(key), app("s_arr", dest.S)), app("sl.idx", dest.S, g.isub(app("s_len", dest.S), g.idxLit(1)))), Sort: g.sortOf(st.Elem()), GT: st.Elem()}
+	destNonEmpty := g.icmp(">", app("s_len", dest.S), g.idxLit(0), true)
+	arg := f.val(e.appendArg)
+	n := constSliceLen(e.appendArg)
+	var conj []string
+	if n >= 0 && n <= 16 {
+		// literal elements: read them from the argument array
+		var elems []Val
+		for k := 0; k < n; k++ {
+			elems = append(elems, Val{S: app("select", app("select", e.heapGet(key), app("s_arr", arg.S)), app("sl.idx", arg.S, g.idxLit(int64(k)))), Sort: g.sortOf(st.Elem()), GT: st.Elem()})
+		}
+		for k := 0; k < n; k++ {
+			c := e.child()
+			c.bind["elem"] = elems[k]
+			if k > 0 {
+				c.bind["prev"] = elems[k-1]
+				c.bind["hasPrev"] = g.boolVal("true")
+			} else {
+				c.bind["prev"] = lastOfDest
+				c.bind["hasPrev"] = g.boolVal(destNonEmpty)
+			}
+			conj = append(conj, c.trBool(body))
+		}
+		return g.boolVal(and(conj...))
+	}
+	// a string or slice operand: quantify over its positions
+	g.qseq++
+	qk := fmt.Sprintf("q!ek!%d", g.qseq)
+	var length string
+	var at func(i string) Val
+	if isString(arg.GT) {
+		length = app("gstr.len", arg.S)
+		at = func(i string) Val { return Val{S: app("gstr.at", arg.S, i), Sort: g.sortOf(tByte), GT: st.Elem()} }
+	} else {
+		length = app("s_len", arg.S)
+		at = func(i string) Val {
+			return Val{S: app("select", app("select", e.heapGet(key), app("s_arr", arg.S)), app("sl.idx", arg.S, i)), Sort: g.sortOf(st.Elem()), GT: st.Elem()}
+		}
+	}
+	c := e.child()
+	c.inQuant++
+	c.bind["elem"] = at(qk)
+	c.bind["prev"] = Val{S: ite(g.icmp(">", qk, g.idxLit(0), true), at(g.isub(qk, g.idxLit(1))).S, lastOfDest.S), Sort: g.sortOf(st.Elem()), GT: st.Elem()}
+	c.bind["hasPrev"] = g.boolVal(or(g.icmp(">", qk, g.idxLit(0), true), destNonEmpty))
+	bodyS := c.trBool(body)
+	return g.boolVal(fmt.Sprintf("(forall ((%s %s)) (=> (and %s %s) %s))", qk, g.idxSort(), g.icmp("<=", g.idxLit(0), qk, true), g.icmp("<", qk, length, true), bodyS))
 }
